@@ -219,12 +219,13 @@ def run(ctx):
                        m.get("facts_error") or m.get("harness_log", ""))
         else:
             check_facts(ctx, m.get("facts"))
-        runs = [(ctx.seed, 6 if quick else 8)]
+        runs = [(ctx.seed, 6 if quick else 8, [])]
         if not quick:
-            runs.append((ctx.seed + 1000, 6))
+            # further seeds: light corpus (quick-tier programs, 40 generated ones each)
+            runs += [(ctx.seed + 1000, 8, ["-extra", "light"]), (ctx.seed + 2000, 8, ["-extra", "light"])]
         progs = 0
-        for seed, nchild in runs:
-            ops, out, meta = ctx.run_hx("oracle", nchild, seed=seed, timeout=170 if quick else 1500)
+        for seed, nchild, extra in runs:
+            ops, out, meta = ctx.run_hx("oracle", nchild, seed=seed, extra_args=extra, timeout=170 if quick else 1000)
             ctx.absorb_meta(meta, prefix="" if seed == ctx.seed else "s%d_" % seed)
             progs += meta.get("programs", 0)
             ctx.coverage.setdefault("oracle_runs", []).append(
